@@ -12,11 +12,29 @@ CHECKS = {
         'exit of fit returns the estimator itself, and components_ is assigned on every path to every exit. Numeric validity '
         '(finite / PSD values) is NOT decided.'),
   note=TB),
+ 'C06': dict(
+  technique='static analysis: taint (raw -> converted -> validated) abstract interpretation of all 103 data-taking (estimator, method) pairs with inlined callees, must-pass-through and path-condition rules on the validators, exception-class resolution, library-signature conformance',
+  text=('Decides totality of validation for all 17 estimators x every data-taking method: the unvalidated data / label argument is '
+        'never used except by handing it to the validators; every value check_input returns has passed the strict scikit-learn check '
+        '(finiteness on, numeric dtype, min samples/features) on every path; the tuple size reaching check_tuple_size is the class\'s '
+        '(2 for pair_*); every raise in the validators is a ValueError; n_components is range-checked (1..n_features) on every fit '
+        'path; calibration parameters are validated before any fitting work; no call can raise TypeError from a keyword the installed '
+        'library lacks. Which concrete arrays scikit-learn\'s check_array rejects, feature-count mismatch at predict time and '
+        'array-like equivalence are NOT decided.'),
+  note=TB),
+ 'C18': dict(
+  technique='static analysis: path-forking abstract interpretation of every __init__ along the MRO with object-identity tracking; must-pass-through (dominance) of fitted-state guards over reads of fitted attributes; effect analysis of stores on self',
+  text=('Decides for 17 estimators x every constructor parameter (130 pairs) that on every path of __init__ self.<p> is the very '
+        'object passed (deprecated aliases: replacement taken from the alias only on a path that emits FutureWarning; alias attribute '
+        "constant 'deprecated'), that __init__ assigns no fitted state, that every read of a fitted attribute in a query method is "
+        'dominated by check_is_fitted naming it (NotFittedError before use), and that no closure/lambda is stored on self. '
+        "scikit-learn's own get_params/set_params/clone introspection and bit-level pickle equality are NOT decided."),
+  note=TB),
 }
 
 _PENDING = 'check not built yet in this revision of /verif (see DESIGN.md section 9 build order); nothing is claimed for it'
 NOT_APPLICABLE = {p: _PENDING for p in
-  ['C01','C02','C04','C05','C06','C07','C08','C09','C10','C11','C12','C13','C14','C15','C17','C18','C19','C20']}
+  ['C01','C02','C04','C05','C07','C08','C09','C10','C11','C12','C13','C14','C15','C17','C19','C20']}
 NOT_APPLICABLE['C16'] = ('optimality of a cut-off over a labelled multiset of distances with ties is a property of runtime '
                          'values; no structural necessary condition of it exists that a sound static rule can name without '
                          'also firing on correct tie-aware rewrites; its parameter-validation sentence is checked as C06(7)')
